@@ -1103,6 +1103,8 @@ rpc_body_stmt:
     | rpc_output optional_body_stmts token_curly_close {
         yylex.(*lexer).stack.pop()
     }
+    | typedef_stmt
+    | grouping_stmt
     | unknown_stmt
 
 rpc_input :
@@ -1158,6 +1160,8 @@ action_body_stmt:
     | rpc_output optional_body_stmts token_curly_close {
         yylex.(*lexer).stack.pop()
     }
+    | typedef_stmt
+    | grouping_stmt
     | unknown_stmt
 
 notification_stmt :
